@@ -446,6 +446,57 @@ func (c *Ctx) isMapMembershipFn(f *ssa.Function) (int, bool) {
 	return setIdx, setIdx >= 0
 }
 
+// forAllBySearch: "every element of the list passes elemCheck" written with the standard search functions: g rejects
+// when slices.IndexFunc(list, bad) finds a position (or slices.ContainsFunc(list, bad) answers true), and the closure
+// bad(e) answers false only across a success edge of elemCheck on e. listIs selects the list by its path in genv.
+func (c *Ctx) forAllBySearch(g *ssa.Function, genv Env, listIs func(string) bool, elemCheck func(elem string) *GCheck) bool {
+	ok := false
+	forEachInstr(g, func(in ssa.Instruction) {
+		cl, isC := in.(*ssa.Call)
+		if !isC || cl.Call.StaticCallee() == nil || len(cl.Call.Args) != 2 || ok {
+			return
+		}
+		o := cl.Call.StaticCallee().Origin()
+		if o == nil {
+			o = cl.Call.StaticCallee()
+		}
+		if pkgPathOf(o) != "slices" || (o.Name() != "IndexFunc" && o.Name() != "ContainsFunc") {
+			return
+		}
+		lp := c.Path(cl.Call.Args[0], genv)
+		if !listIs(lp) {
+			return
+		}
+		fn := funcValueOf(cl.Call.Args[1])
+		if fn == nil || fn.Blocks == nil || len(fn.Params) != 1 {
+			return
+		}
+		cenv := Env{fn.Params[0]: lp + "[ι]"}
+		if mc, isMC := cl.Call.Args[1].(*ssa.MakeClosure); isMC {
+			for i, b := range mc.Bindings {
+				if i < len(fn.FreeVars) {
+					cenv[fn.FreeVars[i]] = c.Path(b, genv)
+				}
+			}
+		}
+		if !c.ensuresFalse(fn, cenv, elemCheck(lp+"[ι]"), 1) {
+			return
+		}
+		// the caller refuses when the search finds something
+		ip := c.Path(cl, genv)
+		var found *GCheck
+		if o.Name() == "ContainsFunc" {
+			found = &GCheck{Name: "no offending element", BoolFalse: true, NoDescend: true, MatchCall: func(c *Ctx, call *ssa.Call, env Env) bool { return call == cl }}
+		} else {
+			found = anyOf("no offending element", cmpReject("i >= 0 rejected", token.GEQ, pathIs(ip), pathIs("0")), cmpAccept("i < 0", token.LSS, pathIs(ip), pathIs("0")), cmpAccept("i == -1", token.EQL, pathIs(ip), pathIs("-1")), cmpReject("i != -1 rejected", token.NEQ, pathIs(ip), pathIs("-1")))
+		}
+		if okG, _, n := c.Guard(g, genv, found, nil); okG && n > 0 {
+			ok = true
+		}
+	})
+	return ok
+}
+
 // decodeTargetTypes: the static types a JSON decoder call may decode into: the pointer handed to it, or — when the
 // target is an interface-typed parameter of an unexported helper — what the helper's call sites hand over.
 func (c *Ctx) decodeTargetTypes(v ssa.Value, depth int) []types.Type {
@@ -485,7 +536,7 @@ func isSlicesContains(f *ssa.Function) bool {
 	if o == nil {
 		o = f
 	}
-	return o.Pkg != nil && o.Pkg.Pkg.Path() == "slices" && o.Name() == "Contains"
+	return pkgPathOf(o) == "slices" && o.Name() == "Contains"
 }
 
 // equalityClosureSearch: the call is slices.ContainsFunc / slices.IndexFunc (list, func(e) bool { return X == conv(e) })
@@ -500,7 +551,7 @@ func equalityClosureSearch(cl *ssa.Call) (*ssa.Function, ssa.Value) {
 	if o == nil {
 		o = g
 	}
-	if o.Pkg == nil || o.Pkg.Pkg.Path() != "slices" || (o.Name() != "ContainsFunc" && o.Name() != "IndexFunc") || len(cl.Call.Args) != 2 {
+	if pkgPathOf(o) != "slices" || (o.Name() != "ContainsFunc" && o.Name() != "IndexFunc") || len(cl.Call.Args) != 2 {
 		return nil, nil
 	}
 	var fn *ssa.Function
